@@ -25,7 +25,7 @@ from datetime import date, datetime, time, timedelta
 from decimal import Decimal
 import ponyutil
 ponyutil.add_stubs()
-from pony.orm import Database, Required, Optional, PrimaryKey, Set, db_session, select
+from pony.orm import Database, Required, Optional, PrimaryKey, Set, Json, db_session, select
 from pony.orm.sqlbuilding import Value, SQLBuilder, Param
 from pony.orm.dbapiprovider import DBAPIProvider
 from pony.orm.dbproviders.sqlite import SQLiteValue, SQLiteBuilder
@@ -594,6 +594,32 @@ def with_jpath(B):
     return type('J' + B.__name__, (B,), {'JPATH': lambda builder, *path: builder.build_json_path(path)[0]})
 
 
+def exec_lowered(con, b, style, args):
+    """run a built statement on real SQLite the way a DB-API driver of `style` would bind its arguments; one row -> list"""
+    try:
+        with warnings.catch_warnings():
+            warnings.simplefilter('ignore', DeprecationWarning)
+            if style in ('qmark', 'named'): got = con.execute(b.sql, args).fetchall()
+            elif style == 'numeric':
+                sql = ''.join((':n%d' % x.id) if isinstance(x, Param) else str(x) for x in b.result).rstrip('\n')
+                got = con.execute(sql, {'n%d' % (i + 1): a for i, a in enumerate(args)}).fetchall()
+            elif style == 'format': got = con.execute(b.sql % tuple(sql_lit(a) for a in args)).fetchall()
+            else: got = con.execute(b.sql % {k: sql_lit(v) for k, v in args.items()}).fetchall()
+        return list(got[0]) if len(got) == 1 else got
+    except Exception as e:
+        return 'raised %s: %s' % (type(e).__name__, short(str(e), 80))
+
+
+def item_shape(it, names):
+    """canonical shape of a select item: parameters renamed in order of first use, constants kept only for JSON paths"""
+    def nm(k): return 'v%d' % names.setdefault(k, len(names))
+    if it[0] == 'PARAM': return nm(it[1][0])
+    if it[0] == 'VALUE': return 'lit'
+    if it[0] == 'MOD': return 'mod(%s)' % ','.join(item_shape(x, names) for x in it[1:])
+    if it[0] == 'JPATH': return 'jpath(%s)' % ','.join(nm(x[1][0]) if x[0] == 'PARAM' else repr(x[1]) for x in it[1:])
+    return it[0]
+
+
 def statements(ctx, strings):
     """whole statements: placeholders with repeats, literals, MOD, composite (JSON path) parameters that share variables and differ in
     constant keys - real builders, five styles; executed on real SQLite after lowering; every selected item compared per placeholder"""
@@ -686,9 +712,27 @@ def statements(ctx, strings):
             except Exception as e:
                 got = 'raised %s: %s' % (type(e).__name__, short(str(e), 80))
             if got != expected_b:
-                ctx.violation('a statement built for paramstyle %s does not return the supplied values (placeholders / literals mismatched)' % style,
-                              {'style': style, 'builder': bname, 'ast': repr(ast)[:600], 'sql': b.sql, 'args': repr(args)[:300]}, observed=repr(got)[:300], expected=repr(expected_b)[:300],
-                              key='statement:%s:%s' % (style, json.dumps(canon_occ(occ))))
+                # shrink: drop select items while the statement still returns something else than the values supplied
+                qc = '`' if bname == 'mysql' else '"'
+                def fails(idx):
+                    try:
+                        bb = B(FakeProvider(style, qc), ['SELECT', ['ALL'] + [items[i] for i in idx]])
+                        return exec_lowered(con, bb, style, bb.adapter(vals)) != [expected_b[i] for i in idx]
+                    except Exception: return True
+                idx = list(range(len(items))); changed = True
+                while changed and len(idx) > 1:
+                    changed = False
+                    for i in list(idx):
+                        cand = [x for x in idx if x != i]
+                        if cand and fails(cand): idx = cand; changed = True; break
+                mb = B(FakeProvider(style, qc), ['SELECT', ['ALL'] + [items[i] for i in idx]])
+                margs = mb.adapter(vals); mgot = exec_lowered(con, mb, style, margs); mexp = [expected_b[i] for i in idx]
+                names = {}
+                ctx.violation('a statement built for paramstyle %s does not return the supplied values: a placeholder is bound to another value than the one supplied for it' % style,
+                              {'style': style, 'builder': bname, 'select_items': [items[i] for i in idx], 'variables': {k: v for k, v in vals.items() if not isinstance(v, tuple)},
+                               'sql': mb.sql, 'args': repr(margs)[:300], 'full_statement': repr(ast)[:400]},
+                              observed=repr(mgot)[:300], expected=repr(mexp)[:300],
+                              key='statement:%s:%s' % (style, json.dumps([item_shape(items[i], names) for i in idx])))
     if ctx.driver.ok:
         for (style, bname, occ, phs, layout, args, vals), out in zip(meta, ctx.driver('C06', reqs)):
             if out.get('placeholders') != phs:
@@ -960,6 +1004,59 @@ def param_eval_queries(ctx, strings):
             try: got = sorted(f.id for f in select(f for f in F if f.c in objs))
             except Exception as e: got = 'raised %s' % type(e).__name__
             check('a key component of an entity inside a tuple', got, sorted(i for i, nm, kk in fdata if kk in (k, keys[0])), [list(k)])
+    db.disconnect()
+    json_path_queries(ctx)
+    make_param_tie(ctx)
+
+
+def make_param_tie(ctx):
+    """makeParams vs the real SQLBuilder.make_param on random (paramkey, content) sequences - the content is the converter argument"""
+    if not ctx.driver.ok: return
+    rng = ctx.rng; reqs = []; reals = []
+    for _ in range(ctx.scale(60, 1500)):
+        b = SQLBuilder(FakeProvider('qmark', '"'), ['VALUE', 1])
+        occ = [[rng.randrange(4), rng.randrange(6)] for _ in range(rng.choice([1, 2, 3, 5, 8]))]
+        reals.append([b.make_param(Param, (k, None, None), c).converter for k, c in occ])
+        reqs.append({'op': 'make_params', 'occ': occ})
+    for r, real, out in zip(reqs, reals, ctx.driver('C06', reqs)):
+        ctx.case(['make-param', r['occ']], kind='make-param-cache')
+        if out != real:
+            ctx.divergence('makeParams differs from the real make_param cache', r['occ'], model=out, impl=real)
+
+
+def json_path_queries(ctx):
+    """composite (JSON path) parameters in real queries on real SQLite: several paths of ONE statement that go through the same external
+    variable(s) and differ only in constant keys must each be bound to their own path - compared with Python on the decoded document"""
+    rng = ctx.rng
+    db = Database()
+    class Page(db.Entity):
+        name = Required(str)
+        data = Required(Json)
+    db.bind('sqlite', ':memory:')
+    db.generate_mapping(create_tables=True)
+    docs = {'home': {'en': {'title': 'Hello', 'body': 'World', 'n': [1, 2]}, 'de': {'title': 'Hallo', 'body': 'Welt', 'n': [3, 4]}},
+            'same': {'en': {'title': 'X', 'body': 'X', 'n': [5, 5]}, 'de': {'title': 'Hallo', 'body': 'Hallo', 'n': [0, 0]}},
+            'swap': {'en': {'title': 'World', 'body': 'Hello', 'n': [2, 1]}, 'de': {'title': 'Welt', 'body': 'Hallo', 'n': [4, 3]}}}
+    with db_session:
+        for n, dd in docs.items(): Page(name=n, data=dd)
+    def check(what, got, exp, inp):
+        ctx.case(['json-path-param', what] + inp, kind='param-eval:json-paths')
+        if got != exp:
+            ctx.violation('two JSON paths of one query that share a variable and differ in a constant key are not bound to their own paths (real SQLite vs Python)',
+                          {'query': what, 'input': inp}, observed=got, expected=exp, key='json-paths-sharing-variable:%s' % what)
+    with db_session:
+        for lang in ('de', 'en'):
+            for i in (0, 1):
+                def run(f):
+                    try: return f()
+                    except Exception as e: return 'raised %s' % type(e).__name__
+                got = run(lambda: sorted(select((p.name, p.data[lang]['title'], p.data[lang]['body']) for p in Page)))
+                check('select (data[lang][title], data[lang][body])', got, sorted((n, dd[lang]['title'], dd[lang]['body']) for n, dd in docs.items()), [lang])
+                got = run(lambda: sorted(select((p.name, p.data[lang]['n'][i], p.data[lang]['title']) for p in Page)))
+                check('select (data[lang][n][i], data[lang][title])', got, sorted((n, dd[lang]['n'][i], dd[lang]['title']) for n, dd in docs.items()), [lang, i])
+                for a, b in (('Hallo', 'Welt'), ('Hallo', 'Hallo'), ('Hello', 'World'), ('X', 'X')):
+                    got = run(lambda: sorted(select(p.name for p in Page if p.data[lang]['title'] == a and p.data[lang]['body'] == b)))
+                    check('where data[lang][title] == a and data[lang][body] == b', got, sorted(n for n, dd in docs.items() if dd[lang]['title'] == a and dd[lang]['body'] == b), [lang, a, b])
     db.disconnect()
 
 
